@@ -38,6 +38,8 @@ def classify(pid, d):
 
 CLASSIFIERS = {}
 
+ALL_EXTRACTORS = ["Basic", "Message", "Conversion", "Session", "Service", "SigGrammar", "Value", "Reader", "Encoding", "GenReaders"]
+
 
 def lean_string_list(path, name):
     """parse `def name : List String := [ ... ]` from a generated Lean file"""
@@ -155,7 +157,7 @@ PROPS = {
     },
     "C08": {
         "level": "proof",
-        "extract": ["Reader", "Encoding", "Value", "Message"],
+        "extract": ["Reader", "Encoding", "Value", "Message", "Basic"],
         "extra_modules": ["QiVerif.Lemmas.Stable"],
         "rule": "valid encodings (typed data of random signatures, dynamic values, MetaObject, ObjectReference, "
                 "ServiceInfo, capability maps, messages) produced by the harness' own encoder, cut at every position "
@@ -164,5 +166,23 @@ PROPS = {
         "assumptions": [
             "stack-depth parametric theorems: a strict prefix yields an error or runs out of depth, never a value",
         ],
+    },
+    "C07": {
+        "level": "proof",
+        "extract": ["GenReaders", "Basic", "Message", "Value", "Reader", "Encoding", "SigGrammar"],
+        "rule": "every decoder entry point (Message.Read, NewValue, signature readers and reflection decoder for random "
+                "signatures, ReadMetaObject, ReadObjectReference, ReadServiceInfo, ReadCapabilityMap, signature.Parse, "
+                "idl.ParsePackage) on: a corpus of minimised witnesses, valid encodings, valid encodings with each "
+                "4-byte field replaced by 0/1/2/4096/4097/0x01000000/0x7FFFFFFF/0x80000000/0xFFFFFFFF, random bytes, "
+                "nested parentheses/brackets, mutated IDL text; each input runs in a child process (6 GiB address-space "
+                "limit, 5 s per input, TotalAlloc and time measured; an input that crashes or times out inside a batch is "
+                "re-run alone); a case counts when distinct; outcome class ok/err compared with the model, any other "
+                "class (panic, crash, oom, timeout, alloc > 48 MiB + 512 x len, time > 3 s) is a violation",
+        "assumptions": [
+            "real memory and time are runtime behaviour: measured per input by the harness, predicted ('hang') but not proved by the model",
+            "constant caps (MaxStringSize, MaxPayloadSize: 10 MiB; 4096 entries) count as bounded: one capped allocation may precede the error",
+            "the IDL parser has no Lean model yet: its inputs are decided by the harness oracle alone",
+        ],
+        "timeout": {"quick": 600, "thorough": 3000},
     },
 }
